@@ -160,11 +160,14 @@ theorem noHeader_short (h0 t s : Bytes) (hearly : NoEarly h0) (hp : t ++ s = h0 
 
 /-! ### the loop's steps on partial parts -/
 
-/-- the part pattern finds, in the part header `h0`, a range of `L` bytes -/
-def HdrOk (rx : Rx) (pp : Bytes) (h0 : Bytes) (L : Nat) : Prop :=
-  NoEarly h0 ∧ ∃ a1 b1 a2 b2, rx.part pp (cstr (h0 ++ [13, 10, 13, 0])) = some (a1, b1, a2, b2) ∧ a1 ≤ b1 ∧
+/-- the part pattern finds, in the part header `h0`, the two numbers of a range of `L` bytes -/
+def RxFinds (rx : Rx) (pp : Bytes) (h0 : Bytes) (L : Nat) : Prop :=
+  ∃ a1 b1 a2 b2, rx.part pp (cstr (h0 ++ [13, 10, 13, 0])) = some (a1, b1, a2, b2) ∧ a1 ≤ b1 ∧
     b1 ≤ (cstr (h0 ++ [13, 10, 13, 0])).length ∧ a2 ≤ b2 ∧ b2 ≤ (cstr (h0 ++ [13, 10, 13, 0])).length ∧
     (parseNum (cstr (h0 ++ [13, 10, 13, 0])) a2 b2 + W64 - parseNum (cstr (h0 ++ [13, 10, 13, 0])) a1 b1 + 1) % W64 = L
+
+/-- the part header `h0` ends at its first CRLFCRLF and the part pattern finds in it a range of `L` bytes -/
+def HdrOk (rx : Rx) (pp : Bytes) (h0 : Bytes) (L : Nat) : Prop := NoEarly h0 ∧ RxFinds rx pp h0 L
 
 theorem hdrOk_of_partOk (rx : Rx) (pp : Bytes) (p : Part) (h : PartOk rx pp p) : HdrOk rx pp p.h0 p.payload.length :=
   ⟨h.early, h.m⟩
